@@ -15,7 +15,7 @@ pub struct Poly {
     pub t: BTreeMap<Mono, u64>,
 }
 
-pub const MAX_TERMS: usize = 4000;
+pub const MAX_TERMS: usize = 60000;
 
 fn mono_mul(a: &Mono, b: &Mono) -> Mono {
     let mut out: Mono = Vec::with_capacity(a.len() + b.len());
